@@ -227,6 +227,10 @@ class Runner:
                 return "spin"
             except KeyError:
                 return "key_error"
+            except core.MachineryError:
+                raise
+            except Exception as e:      # the loop died of something no callback raised
+                return "error:" + type(e).__name__
             except Watchdog:
                 raise core.MachineryError("virtual run hit the 10 s watchdog: %s" % core.canon(self.case)[:300])
         finally:
@@ -269,6 +273,72 @@ def run_select_virtual(case):
         }
     finally:
         select_loop.time, select_loop.selectors = saved
+
+
+def run_zmq_virtual(case):
+    import zmq as real_zmq
+    from urwid.event_loop import zmq_loop
+    env = VEnv(case["env"])
+
+    class FakePoller:
+        """zmq.Poller over the virtual environment: objects are registered by identity, poll()
+        reports filenos"""
+
+        def __init__(self):
+            self.sockets = []
+
+        def register(self, obj, flags=real_zmq.POLLIN):
+            for i, (o, _f) in enumerate(self.sockets):
+                if o is obj:
+                    self.sockets[i] = (obj, flags)
+                    return
+            self.sockets.append((obj, flags))
+
+        def unregister(self, obj):
+            for i, (o, _f) in enumerate(self.sockets):
+                if o is obj:
+                    del self.sockets[i]
+                    return
+            raise KeyError(obj)
+
+        def poll(self, timeout=None):
+            regs = [o.fileno() for o, _f in self.sockets]
+            if timeout is None and not regs:
+                raise Spin()        # the real poll() returns at once: run() spins for ever
+            ready = env.select(None if timeout is None else timeout / 1000, regs)
+            return [(fd, real_zmq.POLLIN) for fd in ready]
+
+    class ZmqProxy:
+        Poller = FakePoller
+
+        def __getattr__(self, name):
+            return getattr(real_zmq, name)
+
+    saved = (zmq_loop.time, zmq_loop.zmq)
+    zmq_loop.time = types.SimpleNamespace(time=env.time, sleep=lambda d: env.select(d, []))
+    zmq_loop.zmq = ZmqProxy()
+    try:
+        base = next(zmq_loop.ZMQEventLoop._alarm_break) + 1
+        loop = zmq_loop.ZMQEventLoop()
+        loop.logger.disabled = True
+        r = Runner(case, env, loop, tie_base=base, file_handles=True)
+        try:
+            r.do_actions(case["setup"])
+        except Exception as e:
+            raise core.MachineryError("setup raised %r" % (e,))
+        outcome = r.run()
+        return {
+            "outcome": outcome,
+            "did": bool(loop._did_something),
+            "now": tick(env.now),
+            "alarms": [[tick(a[0]), a[1] - base, a[2].id] for a in sorted(loop._alarms, key=lambda a: a[:2])],
+            "watch": [[fd, cb.id] for fd, cb in loop._queue_callbacks.items()],
+            "idles": [[h, cb.id] for h, cb in loop._idle_callbacks.items()],
+            "trace": env.trace,
+            "psock": [o.fileno() for o, _f in loop._poller.sockets],
+        }
+    finally:
+        zmq_loop.time, zmq_loop.zmq = saved
 
 
 # ---------------- wire format ----------------
@@ -344,6 +414,611 @@ def decode_result(ints):
             else:
                 return {"malformed": ints[:20]}
         out["trace"] = tr
+        rest = list(it)
+        if rest:
+            out["psock"] = rest[1:1 + rest[0]]
         return out
     except StopIteration:
         return {"malformed": ints[:20]}
+
+
+# =====================================================================================
+# oracle for the virtual runs: the property text replayed over the observed history
+# (written without looking at the model: plain dictionaries, one pass)
+# =====================================================================================
+def oracle_history(trace, outcome, dist=None):
+    msgs = []
+    alarms = {}        # handle -> [due, state]   state in pending / called / removed
+    watched = {}       # fd -> callback id currently registered
+    idles = {}         # handle -> registered / removed
+    raised = None
+    required_idle = None   # idle handles that must run before the next quiescent wait
+    idle_seen = set()
+    unserved = set()   # descriptors reported readable by the last select, not served yet
+    for ev in trace:
+        k = ev[0]
+        if raised is not None:
+            if k.endswith("_call"):
+                msgs.append(f"a callback ({k}) ran after a callback had raised: the loop did not stop")
+                break
+            if k == "select":
+                msgs.append("the loop went on (select) after a callback had raised")
+                break
+        if k == "alarm_set":
+            alarms[ev[1]] = [ev[2], "pending"]
+        elif k == "rm_alarm":
+            a = alarms.get(ev[1])
+            if a is not None and a[1] == "pending":
+                if not ev[2]:
+                    msgs.append("remove_alarm of a pending alarm reported failure")
+                a[1] = "removed"
+            elif a is not None and a[1] == "removed":
+                if ev[2]:
+                    msgs.append("removing an alarm again reported success")
+            elif dist is not None:
+                dist["obs:rm_alarm_not_pending->%s" % ev[2]] = dist.get("obs:rm_alarm_not_pending->%s" % ev[2], 0) + 1
+        elif k == "alarm_call":
+            a = alarms.get(ev[1])
+            if a is None:
+                msgs.append("the callback of an alarm that was never set ran")
+            else:
+                if a[1] == "called":
+                    msgs.append("an alarm callback ran twice")
+                elif a[1] == "removed":
+                    msgs.append("the callback of a removed alarm ran")
+                if isinstance(ev[3], int) and isinstance(a[0], int) and ev[3] < a[0]:
+                    msgs.append("an alarm callback ran before its due time")
+                for h, b in alarms.items():
+                    if h != ev[1] and b[1] == "pending" and isinstance(b[0], int) and isinstance(a[0], int) and b[0] < a[0]:
+                        msgs.append("an alarm callback ran before an alarm due earlier")
+                        break
+                a[1] = "called"
+            required_idle = {h for h, st in idles.items() if st == "registered"}
+            idle_seen = set()
+        elif k == "watch_set":
+            watched[ev[1]] = ev[2]
+        elif k == "rm_watch":
+            if ev[1] in watched:
+                if not ev[2]:
+                    msgs.append("remove_watch_file of a watched descriptor reported failure")
+                del watched[ev[1]]
+                unserved.discard(ev[1])
+        elif k == "watch_call":
+            if ev[1] not in watched:
+                msgs.append("the callback of a removed watch ran")
+            unserved.discard(ev[1])
+            required_idle = {h for h, st in idles.items() if st == "registered"}
+            idle_seen = set()
+        elif k == "idle_set":
+            idles[ev[1]] = "registered"
+        elif k == "rm_idle":
+            if idles.get(ev[1]) == "registered" and ev[2]:
+                idles[ev[1]] = "removed"
+                if required_idle is not None:
+                    required_idle.discard(ev[1])
+        elif k == "idle_call":
+            if idles.get(ev[1]) == "removed":
+                msgs.append("a removed idle callback was called again")
+            idle_seen.add(ev[1])
+        elif k == "select":
+            to, regs, t, ready = ev[1], ev[2], ev[3], ev[4]
+            if unserved:
+                msgs.append("a watched descriptor was readable but its callback did not run before the next select")
+            unserved = {fd for fd in ready if fd in watched}
+            if dist is not None and len(unserved) != len(set(ready)):
+                dist["obs:select_reports_unwatched_fd"] = dist.get("obs:select_reports_unwatched_fd", 0) + 1
+            quiescent = to is None or (isinstance(to, int) and to > 0)
+            if quiescent:
+                if required_idle is not None and not required_idle <= idle_seen:
+                    msgs.append("the loop went quiescent after an alarm/watch callback without running the idle callbacks")
+                required_idle = None
+                if to is None and any(a[1] == "pending" for a in alarms.values()):
+                    msgs.append("the loop waits without timeout while an alarm is pending")
+        elif k == "raise":
+            raised = ev[1]
+    if raised is True and outcome != "returned":
+        msgs.append(f"a callback raised ExitMainLoop but run() ended with '{outcome}'")
+    if raised is False and outcome != "raised":
+        msgs.append(f"a callback raised an exception but run() ended with '{outcome}' instead of re-raising it")
+    if raised is None and outcome not in ("env_end", "blocked", "spin"):
+        msgs.append(f"no callback raised but run() ended with '{outcome}'")
+    return msgs
+
+
+# =====================================================================================
+# adapters: contract scenarios on the REAL runtimes (one scenario per subprocess)
+# =====================================================================================
+ADAPTERS = ["select", "zmq", "asyncio", "tornado", "twisted", "trio"]
+SCENARIOS = ["alarms", "overdue_order", "overdue_remove", "watch", "watch_sibling", "idle", "idle_remove",
+             "exc_alarm", "exc_watch", "exc_idle", "exit_alarm", "exit_watch", "exit_idle"]
+U = 0.05
+
+
+def make_loop(name):
+    import urwid
+    if name == "select":
+        return urwid.SelectEventLoop()
+    if name == "zmq":
+        return urwid.ZMQEventLoop()
+    if name == "asyncio":
+        import asyncio
+        return urwid.AsyncioEventLoop(loop=asyncio.new_event_loop())
+    if name == "tornado":
+        return urwid.TornadoEventLoop()
+    if name == "twisted":
+        return urwid.TwistedEventLoop()
+    if name == "trio":
+        return urwid.TrioEventLoop()
+    raise SystemExit("unknown loop " + name)
+
+
+def adapter_worker(name, scen):
+    """runs in a subprocess; prints one JSON line"""
+    import time
+    from urwid import ExitMainLoop
+    loop = make_loop(name)
+    t0 = time.monotonic()
+    log = []
+    res = {}
+
+    def L(x):
+        log.append([x, int((time.monotonic() - t0) * 1000)])
+
+    def alarm(units, label, fn=None):
+        def cb():
+            L(label)
+            if fn is not None:
+                fn()
+            L(label + ":end")
+        L("set:" + label)
+        return loop.alarm(units * U, cb)
+
+    def bye():
+        raise ExitMainLoop()
+
+    boom = Boom("x")
+
+    def kaboom():
+        raise boom
+    raiser = kaboom if scen.startswith("exc_") else bye
+
+    if scen == "alarms":
+        h5 = [None]
+
+        def in_a1():
+            res["r3"] = bool(loop.remove_alarm(h5[0]))
+            res["r4"] = bool(loop.remove_alarm(h5[0]))
+        alarm(3, "a3")
+        alarm(1, "a1", in_a1)
+        h2 = alarm(2, "a2")
+        h5[0] = alarm(5, "a5")
+        res["r1"] = bool(loop.remove_alarm(h2))
+        res["r2"] = bool(loop.remove_alarm(h2))
+        alarm(8, "exit", bye)
+    elif scen == "overdue_order":
+        alarm(1, "slow", lambda: time.sleep(5 * U))
+        alarm(4, "d4")
+        alarm(2, "d2")
+        alarm(3, "d3")
+        alarm(12, "exit", bye)
+    elif scen == "overdue_remove":
+        # d2 and d3 are both overdue when the slow callback returns; d2 removes d3
+        h3 = [None]
+
+        def in_d2():
+            if "d3" not in [n for n, _ in log]:
+                res["rm3"] = bool(loop.remove_alarm(h3[0]))
+        alarm(1, "slow", lambda: time.sleep(5 * U))
+        h3[0] = alarm(3, "d3")
+        alarm(2, "d2", in_d2)
+        alarm(12, "exit", bye)
+    elif scen in ("watch", "exc_watch", "exit_watch"):
+        r, w = os.pipe()
+        n = [0]
+        hh = [None]
+
+        def wcb():
+            os.read(r, 1)
+            n[0] += 1
+            L("w")
+            if scen != "watch":
+                raiser()
+            if n[0] == 2:
+                res["rm1"] = bool(loop.remove_watch_file(hh[0]))
+                res["rm2"] = bool(loop.remove_watch_file(hh[0]))
+            L("w:end")
+        hh[0] = loop.watch_file(r, wcb)
+        os.write(w, b"abc")
+        loop.enter_idle(lambda: L("i"))
+        alarm(4, "late")
+        alarm(8, "exit", bye)
+    elif scen == "watch_sibling":
+        # two readable descriptors; whichever callback runs first removes the watch of the other one
+        r1, w1 = os.pipe()
+        r2, w2 = os.pipe()
+        hs = {}
+
+        def mk(me, other, fd):
+            def cb():
+                os.read(fd, 1)
+                L("w" + me)
+                res["rm" + other] = bool(loop.remove_watch_file(hs[other]))
+            return cb
+        hs["1"] = loop.watch_file(r1, mk("1", "2", r1))
+        hs["2"] = loop.watch_file(r2, mk("2", "1", r2))
+        os.write(w1, b"x")
+        os.write(w2, b"x")
+        alarm(6, "exit", bye)
+    elif scen == "idle":
+        loop.enter_idle(lambda: L("i1"))
+        loop.enter_idle(lambda: L("i2"))
+        alarm(1, "a1")
+        alarm(6, "a6")
+        alarm(12, "exit", bye)
+    elif scen == "idle_remove":
+        h = [None]
+
+        def i1():
+            L("i1")
+            res.setdefault("rm1", bool(loop.remove_enter_idle(h[0])))
+            res.setdefault("rm2", bool(loop.remove_enter_idle(h[0])))
+        h[0] = loop.enter_idle(i1)
+        loop.enter_idle(lambda: L("i2"))
+        alarm(1, "a1")
+        alarm(5, "a5")
+        alarm(10, "exit", bye)
+    elif scen in ("exc_alarm", "exit_alarm"):
+        alarm(1, "a1", raiser)
+        alarm(7, "late")
+        alarm(12, "exit", bye)
+    elif scen in ("exc_idle", "exit_idle"):
+        def ic():
+            L("i")
+            raiser()
+        loop.enter_idle(ic)
+        alarm(1, "a1")
+        alarm(7, "late")
+        alarm(12, "exit", bye)
+    else:
+        raise SystemExit("unknown scenario " + scen)
+    try:
+        loop.run()
+        outcome = "returned"
+    except Boom as e:
+        outcome = "raised-same" if e is boom else "raised-other-boom"
+    except BaseException as e:
+        outcome = "raised:" + type(e).__name__
+    print("C13RESULT " + json.dumps({"outcome": outcome, "log": log, "res": res}), flush=True)
+    os._exit(0)     # twisted / tornado may keep non-daemon machinery alive
+
+
+def first(log, name, after=-1):
+    for i, (n, t) in enumerate(log):
+        if i > after and n == name:
+            return i
+    return None
+
+
+def oracle_adapter(case, r):
+    """returns (hard, soft): hard = violations that no scheduling delay can explain;
+    soft = violations that a long stall of the process could also produce (need to repeat)"""
+    hard, soft = [], []
+    if "error" in r:
+        return [f"scenario did not complete: {r['error']}"], []
+    scen, log, res, outcome = case["scenario"], r["log"], r["res"], r["outcome"]
+    names = [n for n, _ in log]
+    tset = {n[4:]: t for n, t in log if n.startswith("set:")}
+
+    def due_ms(label, units):
+        return tset[label] + units * U * 1000
+
+    def check_alarm(label, units):
+        c = names.count(label)
+        if c > 1:
+            hard.append(f"alarm {label} ran {c} times")
+        if c >= 1:
+            t = log[names.index(label)][1]
+            if t < due_ms(label, units) - 5:
+                hard.append(f"alarm {label} ran before its due time")
+    exp_outcome = "raised-same" if scen.startswith("exc_") else "returned"
+    if outcome != exp_outcome:
+        hard.append(f"run() ended with '{outcome}', expected '{exp_outcome}'")
+    if scen == "alarms":
+        for lab, u in (("a1", 1), ("a3", 3), ("a2", 2), ("a5", 5), ("exit", 8)):
+            check_alarm(lab, u)
+        if res.get("r1") is not True or res.get("r3") is not True:
+            hard.append("remove_alarm of a pending alarm reported failure")
+        if res.get("r2") is not False or res.get("r4") is not False:
+            hard.append("removing an alarm again reported success")
+        if "a2" in names or "a5" in names:
+            hard.append("the callback of a removed alarm ran")
+        if names.count("a1") != 1 or names.count("a3") != 1:
+            hard.append("an alarm that was not removed did not run exactly once before a later alarm stopped the loop")
+        elif names.index("a3") < names.index("a1"):
+            soft.append("an alarm callback ran before an alarm due earlier")
+    elif scen == "overdue_order":
+        for lab, u in (("slow", 1), ("d2", 2), ("d3", 3), ("d4", 4)):
+            check_alarm(lab, u)
+        order = [n for n in names if n in ("d2", "d3", "d4")]
+        if sorted(order) != ["d2", "d3", "d4"]:
+            hard.append("an overdue alarm did not run exactly once")
+        elif order != ["d2", "d3", "d4"]:
+            hard.append("overdue alarms ran out of due order (an alarm ran before an alarm due earlier)")
+    elif scen == "overdue_remove":
+        for lab, u in (("slow", 1), ("d2", 2), ("d3", 3)):
+            check_alarm(lab, u)
+        if "d2" not in names:
+            hard.append("an overdue alarm did not run")
+        elif "d3" in names and names.index("d3") < names.index("d2"):
+            hard.append("overdue alarms ran out of due order (an alarm ran before an alarm due earlier)")
+        elif res.get("rm3") is not True:
+            hard.append("remove_alarm of a pending alarm reported failure")
+        elif "d3" in names:
+            hard.append("the callback of a removed alarm ran")
+    elif scen == "watch":
+        if names.count("w") != 2:
+            hard.append(f"watch callback ran {names.count('w')} times; expected 2 (removed in its 2nd call while data remained)")
+        if res.get("rm1") is not True:
+            hard.append("remove_watch_file of a watched descriptor reported failure")
+        if res.get("rm2") is not False:
+            hard.append("removing a watch again reported success")
+        i_w = first(log, "w:end")
+        i_late = first(log, "late")
+        if i_w is not None and i_late is not None and "i" not in names[i_w:i_late]:
+            soft.append("no idle callback between a watch callback and the next wait")
+    elif scen == "watch_sibling":
+        nw = names.count("w1") + names.count("w2")
+        if nw > 1:
+            hard.append("the callback of a watch removed by a sibling callback ran")
+        elif nw == 0:
+            hard.append("no watch callback ran although the descriptors were readable")
+    elif scen == "idle":
+        for a, b in (("a1:end", "a6"), ("a6:end", "exit")):
+            ia, ib = first(log, a), first(log, b)
+            if ia is None or ib is None:
+                hard.append("an alarm did not run")
+                continue
+            seg = names[ia:ib]
+            if "i1" not in seg or "i2" not in seg:
+                soft.append("the idle callbacks did not run between an alarm callback and the next wait")
+    elif scen == "idle_remove":
+        if names.count("i1") > 1:
+            hard.append("a removed idle callback was called again")
+        if res.get("rm2") is True:
+            hard.append("removing an idle callback again reported success")
+        if "rm1" in res and res["rm1"] is not True:
+            hard.append("remove_enter_idle of a registered callback reported failure")
+        ia, ib = first(log, "a5:end"), first(log, "exit")
+        if ia is not None and ib is not None and "i2" not in names[ia:ib]:
+            soft.append("the remaining idle callback did not run after an alarm callback")
+    elif scen in ("exc_alarm", "exit_alarm", "exc_idle", "exit_idle", "exc_watch", "exit_watch"):
+        if "late" in names:
+            soft.append("a later alarm ran although an earlier callback had raised")
+        trig = {"alarm": "a1", "idle": "i", "watch": "w"}[scen.split("_")[1]]
+        if names.count(trig) != 1:
+            soft.append(f"the raising callback ran {names.count(trig)} times")
+    return hard, soft
+
+
+def run_adapter_once(case, timeout=20):
+    env = dict(os.environ)
+    env.setdefault("PYTHONPATH", core.REPO + ":" + core.ROOT)
+    try:
+        p = subprocess.run([core.PY, "-m", "harness.props.c13", "adapter", case["adapter"], case["scenario"]],
+                           cwd=core.ROOT, env=env, capture_output=True, text=True, timeout=timeout)
+    except subprocess.TimeoutExpired:
+        return {"error": f"hard timeout after {timeout}s (the loop did not stop)"}
+    for line in p.stdout.splitlines():
+        if line.startswith("C13RESULT "):
+            return json.loads(line[len("C13RESULT "):])
+    return {"error": "no result (rc=%s): %s" % (p.returncode, (p.stderr or p.stdout)[-300:].replace("\n", " | "))}
+
+
+# =====================================================================================
+# the check
+# =====================================================================================
+class C13(core.Check):
+    pid = "C13"
+    gen_modules = []
+    model_targets = ["theories/Model/SelectLoop.vo", "theories/Model/ZmqLoop.vo"]
+    prop_file = "theories/Properties/C13.v"
+    extract_v = "Extract/C13X.v"
+    allowed_axioms = set()
+    design_ref = "DESIGN.md section 5, C13"
+    correspondence_name = "virtual-clock SelectEventLoop/ZMQEventLoop vs extracted model"
+    search_budget = {"quick": 40, "thorough": 300}
+
+    # ---------- implementation ----------
+    def run_impl(self, case):
+        if "adapter" in case:
+            return run_adapter_once(case)
+        if case["loop"] == "select":
+            return run_select_virtual(case)
+        if case["loop"] == "zmq":
+            return run_zmq_virtual(case)
+        raise core.MachineryError("unknown loop " + str(case.get("loop")))
+
+    def encode(self, case):
+        return encode_case(case)
+
+    def decode(self, case, ints):
+        return decode_result(ints)
+
+    def oracle(self, case, res):
+        if "adapter" in case:
+            hard, soft = oracle_adapter(case, res)
+            return hard + soft
+        if "trace" not in res:
+            return []
+        return oracle_history(res["trace"], res["outcome"], getattr(self, "_dist", None))
+
+    def nontrivial(self, case, res):
+        return any(e[0].endswith("_call") for e in res.get("trace", []))
+
+    def signature(self, case, msg):
+        import re
+        return case.get("adapter", case.get("loop", "")) + ":" + case.get("scenario", "") + ":" + re.sub(r"\d+", "N", msg)
+
+    def distribution(self, case, res, dist):
+        self._dist = dist
+        k = "outcome:%s:%s" % (case.get("loop"), res.get("outcome"))
+        dist[k] = dist.get(k, 0) + 1
+        for e in res.get("trace", []):
+            if e[0].endswith("_call") or e[0] == "raise":
+                dist["ev:" + e[0]] = dist.get("ev:" + e[0], 0) + 1
+            elif e[0] == "select":
+                q = "select:none" if e[1] is None else ("select:0" if e[1] == 0 else "select:positive")
+                dist[q] = dist.get(q, 0) + 1
+            elif e[0].startswith("rm_"):
+                q = "%s:%s" % (e[0], e[2])
+                dist[q] = dist.get(q, 0) + 1
+
+    def shrink_candidates(self, case):
+        if "adapter" in case:
+            return
+        for key in ("env", "beh", "setup"):
+            l = case[key]
+            for i in range(len(l)):
+                c = dict(case)
+                c[key] = l[:i] + l[i + 1:]
+                yield c
+        for i, (id_, when, acts) in enumerate(case["beh"]):
+            for j in range(len(acts)):
+                c = dict(case)
+                c["beh"] = case["beh"][:i] + [[id_, when, acts[:j] + acts[j + 1:]]] + case["beh"][i + 1:]
+                yield c
+
+    # ---------- generators ----------
+    ACTOR_MENU = [
+        [["rm_alarm", 0]], [["rm_alarm", 1]], [["rm_alarm", 2]], [["rm_alarm", 1], ["rm_alarm", 1]],
+        [["rm_watch", 7]], [["rm_watch", 8]], [["rm_watch", 7], ["watch", 7, 42]], [["rm_watch", 8], ["rm_watch", 8]],
+        [["rm_idle", 1]], [["rm_idle", 2]], [["rm_idle", 1], ["rm_idle", 1]], [["rm_idle", 1], ["idle", 41]],
+        [["alarm", 0, 40]], [["alarm", 2, 40]], [["alarm", -1, 40]], [["idle", 41]], [["watch", 7, 42]], [["watch", 9, 42]],
+        [["sleep", 3]], [["sleep", 3], ["rm_alarm", 1]], [["exit"]], [["boom"]], [["rm_watch", 7], ["boom"]],
+        [["alarm", 1, 40], ["exit"]],
+    ]
+    ALARM_SETS = [[], [1], [2, 1], [1, 1], [0, 2], [3, 1, 2], [2, 2, 2]]
+    WATCH_SETS = [[], [7], [7, 8]]
+    ENVS = [
+        [[0, []]] * 10 + [[0, [7, 8]], [0, []], [0, []]],
+        [[0, []], [1, [7]]] + [[0, []]] * 6 + [[1, [8, 7]], [0, []], [0, [7]], [0, []], [0, []]],
+        [[0, [7, 8]]] + [[0, []]] * 7 + [[0, [7, 8]], [0, []], [0, []], [0, [8]], [0, []]],
+        [[0, [8, 7]], [0, [7]], [0, [8, 9]]] + [[0, []]] * 6 + [[3, [7]], [0, []], [0, []]],
+        [[2, []]] * 8 + [[2, [7, 8]], [2, []], [2, []]],
+        [[0, []], [0, []], [1, [7, 8]], [0, [7]], [5, [8]]] + [[0, []]] * 6 + [[0, [8, 7]], [0, []], [0, []]],
+    ]
+
+    def small_scenarios(self, loop, rng, tier):
+        """exhaustive over a small scope: <= 3 alarms, 2 fds, 2 idle callbacks; one acting callback
+        with every behaviour of the menu (on every call / first call / second call only), every
+        environment of ENVS"""
+        for al in self.ALARM_SETS:
+            for ws in self.WATCH_SETS:
+                for nidle in (0, 1, 2):
+                    setup = [["alarm", dt, 10 + i] for i, dt in enumerate(al)]
+                    setup += [["watch", fd, 20 + fd - 7] for fd in ws]
+                    setup += [["idle", 31 + j] for j in range(nidle)]
+                    ids = [a[2] for a in setup if a[0] in ("alarm", "watch")] + [a[1] for a in setup if a[0] == "idle"]
+                    if not ids:
+                        yield {"loop": loop, "setup": setup, "beh": [], "env": self.ENVS[0][:3]}
+                        continue
+                    for actor in ids:
+                        for acts in self.ACTOR_MENU:
+                            whens = (-1, 0, 1) if tier == "thorough" else (rng.choice((-1, 0, 1)),)
+                            envs = self.ENVS if tier == "thorough" else rng.sample(self.ENVS, 2)
+                            for when in whens:
+                                beh = [[actor, when, acts], [40, -1, rng.choice([[], [["exit"]], [["rm_idle", 2]], [["boom"]]])],
+                                       [42, -1, rng.choice([[], [["rm_watch", 7]], [["exit"]]])]]
+                                for env in envs:
+                                    yield {"loop": loop, "setup": setup, "beh": beh, "env": env}
+
+    def random_action(self, rng):
+        k = rng.choice(["nop", "alarm", "alarm", "rm_alarm", "rm_alarm", "watch", "rm_watch", "rm_watch", "idle", "rm_idle",
+                        "rm_idle", "sleep", "exit", "boom"])
+        if k == "alarm":
+            return [k, rng.choice([-1, 0, 0, 1, 1, 2, 3, 5]), rng.randrange(10, 18)]
+        if k == "rm_alarm":
+            return [k, rng.choice([0, 0, 1, 1, 2, 3, 4, -1, 9])]
+        if k == "watch":
+            return [k, rng.choice([7, 8, 9]), rng.randrange(20, 24)]
+        if k == "rm_watch":
+            return [k, rng.choice([7, 8, 9])]
+        if k == "idle":
+            return [k, rng.randrange(30, 34)]
+        if k == "rm_idle":
+            return [k, rng.choice([0, 1, 1, 2, 2, 3, 4])]
+        if k == "sleep":
+            return [k, rng.choice([0, 1, 2, 4])]
+        return [k]
+
+    def random_case(self, loop, rng):
+        setup = []
+        for _ in range(rng.choice([0, 1, 2, 3, 3, 4, 6])):
+            a = self.random_action(rng)
+            while a[0] in ("exit", "boom", "sleep", "nop"):
+                a = self.random_action(rng)
+            setup.append(a)
+        if rng.random() < 0.5:
+            setup.append(["alarm", rng.choice([0, 1, 2, 3]), rng.randrange(10, 18)])
+        beh = []
+        for _ in range(rng.choice([0, 1, 2, 3, 5])):
+            acts = [self.random_action(rng) for _ in range(rng.choice([1, 1, 2, 3]))]
+            if rng.random() < 0.7:       # raising is interesting but ends the run: keep it rarer
+                acts = [a for a in acts if a[0] not in ("exit", "boom")] or [["nop"]]
+            beh.append([rng.choice(list(range(10, 18)) + list(range(20, 24)) + list(range(30, 34))), rng.choice([-1, -1, 0, 1, 2]), acts])
+        env = []
+        for _ in range(rng.choice([3, 6, 10, 16])):
+            fds = [fd for fd in (7, 8, 9) if rng.random() < 0.3]
+            rng.shuffle(fds)
+            env.append([rng.choice([0, 0, 0, 1, 2, 4]), fds])
+        return {"loop": loop, "setup": setup, "beh": beh, "env": env}
+
+    def loops(self):
+        return ["select", "zmq"]
+
+    def cases(self, rng, tier):
+        for loop in self.loops():
+            yield from self.small_scenarios(loop, rng, tier)
+            for _ in range(3000 if tier == "quick" else 60000):
+                yield self.random_case(loop, rng)
+
+    def search_cases(self, rng, tier):
+        for loop in self.loops():
+            yield from self.small_scenarios(loop, rng, "thorough")
+        while True:
+            yield self.random_case(rng.choice(self.loops()), rng)
+
+    # ---------- adapters on the real runtimes ----------
+    def extra_checks(self, tier, rng, ev):
+        from concurrent.futures import ThreadPoolExecutor
+        cases = [{"adapter": a, "scenario": s} for a in ADAPTERS for s in SCENARIOS]
+        viols = []
+        dist = ev["dist"]
+
+        def attempt(case):
+            """hard violations count at once; soft ones only when they repeat 3 times in a row"""
+            for n in range(3):
+                r = run_adapter_once(case)
+                hard, soft = oracle_adapter(case, r)
+                if hard:
+                    return case, hard, r
+                if not soft:
+                    return case, [], r
+            return case, soft, r
+        with ThreadPoolExecutor(max_workers=6) as ex:
+            for case, msgs, r in ex.map(attempt, cases):
+                ev["evaluations"] += 1
+                key = "adapter:%s:%s" % (case["adapter"], "ok" if not msgs else "violation")
+                dist[key] = dist.get(key, 0) + 1
+                if not msgs and "log" in r:
+                    ev["distinct"].add(core.h([case, [n for n, _ in r["log"]]]))
+                for m in msgs:
+                    viols.append((case, m))
+        return viols
+
+
+CHECK = C13
+
+if __name__ == "__main__":
+    if len(sys.argv) == 4 and sys.argv[1] == "adapter":
+        adapter_worker(sys.argv[2], sys.argv[3])
